@@ -17,7 +17,13 @@ theorem step_asg (cfg : Cfg) (s : St) (e : Ev) (h : ∀ a, e ≠ .syncDone (.ok 
   | stop => simp [step]
   | coordDone r => cases r <;> simp only [step] <;> (repeat' split) <;> simp
   | metaDone r => cases r <;> simp only [step] <;> (repeat' split) <;> simp
-  | joinDone r => cases r <;> simp only [step] <;> (repeat' split) <;> simp
+  | joinDone r =>
+    cases r with
+    | err e => simp only [step]; (repeat' split) <;> simp
+    | ok m g l n =>
+      by_cases hj : (s.jpc != .join) = true
+      · simp [step, hj]
+      · by_cases hs : s.stopping = true <;> cases l <;> simp [step, hj, hs, abandonHb_eq, andThen]
   | partsDone r => cases r <;> simp only [step] <;> (repeat' split) <;> simp
   | hbDone r => cases r <;> simp only [step] <;> (repeat' split) <;> simp
   | leaveDone r => cases r <;> simp only [step] <;> (repeat' split) <;> simp
@@ -69,7 +75,7 @@ theorem step_noheld (cfg : Cfg) (s : St) (e : Ev) (h : ∀ a, e ≠ .syncDone (.
     · cases r with
       | err e => exact noheld_of_cons (rejoinAfterError_nh cfg _ e (noheld_of_cons (s' := { s with jpc := .idle }) hn rfl)) rfl
       | ok m g l n =>
-        simp only []
+        simp only [abandonHb_eq, andThen_fst]
         split
         · exact hn
         · split <;> exact hn
